@@ -33,6 +33,7 @@
 //                                  it starts with the empty predicate; `keep`: the replaced one stays alive (a validator that
 //                                  still asks it shows up as 's' in q= and gets the OLD predicate's answers), `drop`: it is destroyed
 //          setfrac <f>             si->setStateValidityCheckingResolution(f): takes effect at the next setup() only
+//          setbounds <lo> <hi>     setBounds on every RealVector part: the extent (and L) follows at the next setup() only
 //          setfac <slot> <k>       setValidSegmentCountFactor on the pre-order node <slot>: takes effect at once
 //          setup                   si->setup()
 //          setmv <default|discrete> the motion validator is replaced (default: setMotionValidator(nullptr) + setup(), the
@@ -545,6 +546,8 @@ int main()
     // fills the frame's table for the pair (a, b)
     auto prepare = [&](Frame &F, const ob::State *a, const ob::State *b, ob::State *tmpS) -> long {
         long n = (long)space->validSegmentCount(a, b);
+        Frame *savedCur = book.cur;
+        book.cur = &F;      // (tb) the reference traversal's own validity questions go to this frame and are discarded below
         F.endPtr = b;
         F.n = n;
         F.table.clear();
@@ -624,6 +627,7 @@ int main()
             F.r1End = b->as<ob::RealVectorStateSpace::StateType>()->values[0];
             F.r1Decode = a->as<ob::RealVectorStateSpace::StateType>()->values[0] == 0.0 && F.r1End != 0.0;
         }
+        book.cur = savedCur;
         return n;
     };
     auto cnt = [&](unsigned a0, unsigned b0) {
@@ -776,6 +780,34 @@ int main()
                 std::cout << "bad-op\n";
             }
         }
+        else if (op == "setbounds" && t.size() == 3 && vp::parseBits(t[1]) && vp::parseBits(t[2]) && !projSpace &&
+                 *vp::parseBits(t[1]) < *vp::parseBits(t[2]))
+        {
+            // new bounds on every RealVector part (through the owning space's own setBounds where it has one): the
+            // maximum extent, hence longestValidSegment_, follows at the next setup() only
+            const double l = *vp::parseBits(t[1]), h = *vp::parseBits(t[2]);
+            auto mk = [&](unsigned d) {
+                ob::RealVectorBounds b(d);
+                b.setLow(l);
+                b.setHigh(h);
+                return b;
+            };
+            if (auto *x = dynamic_cast<ob::OwenStateSpace *>(space.get()))
+                x->setBounds(mk(3));
+            else if (auto *x = dynamic_cast<ob::VanaStateSpace *>(space.get()))
+                x->setBounds(mk(3));
+            else if (auto *x = dynamic_cast<ob::VanaOwenStateSpace *>(space.get()))
+                x->setBounds(mk(3));
+            else
+                for (auto &nd : nodes)
+                {
+                    if (auto *rvs = dynamic_cast<ob::RealVectorStateSpace *>(nd.get()))
+                        rvs->setBounds(mk(rvs->getDimension()));
+                    else if (auto *se = dynamic_cast<ob::SE2StateSpace *>(nd.get()))
+                        se->setBounds(mk(2));
+                }
+            std::cout << "ok\n";
+        }
         else if (op == "setfac" && t.size() == 3 && vp::parseNat(t[1]) && vp::parseNat(t[2]) && *vp::parseNat(t[1]) < nodes.size() &&
                  *vp::parseNat(t[2]) >= 1 && *vp::parseNat(t[2]) <= 1000 && !projSpace)
         {
@@ -809,7 +841,7 @@ int main()
             auto k = vp::parseNat(t[1]);
             size_t i = 4;
             bool ok = k && *k >= 1 && *k <= 1000000 && (t[2] == "same" || t[2] == "thread") &&
-                      (t[3] == "cm2" || t[3] == "cm3" || t[3] == "cm3n") && !atlasLike && parseState(t, i, n1) &&
+                      (t[3] == "cm2" || t[3] == "cm3" || t[3] == "cm3n") && parseState(t, i, n1) &&
                       parseState(t, i, n2);
             std::set<long> inv;
             if (ok)
